@@ -98,7 +98,7 @@ func genWSteps(src sim.Source) []wStep {
 		case k < 17:
 			out = append(out, wStep{Kind: "stream", Code: sim.Pick(src, "code", c14Codes[:5]), Data: data(), Together: sim.Bool(src, "together"), Chunk: src.Intn("chunk", 4), Preset: sim.Pick(src, "presetct", []int{0, 0, 0, 1, 2})})
 		case k < 18:
-			out = append(out, wStep{Kind: "redirect", Code: sim.Pick(src, "rcode", []int{299, 300, 301, 302, 307, 308, 309, 200}), URL: "http://sim.invalid/next"})
+			out = append(out, wStep{Kind: "redirect", Code: sim.Pick(src, "rcode", []int{299, 300, 301, 302, 303, 304, 305, 306, 307, 308, 309, 310, 399, 200, 3000}), URL: "http://sim.invalid/next"})
 		case k < 19 && i == n-1:
 			out = append(out, wStep{Kind: "hijack"})
 		default:
